@@ -243,9 +243,21 @@ Section EquivModel.
   Definition feat_sum (n : nat) (X : mat F) : vec F := fun a => sumn n (fun i => X i a).
   Definition lltsa_rhs (n : nat) (X : mat F) : mat F :=
     fun a b => npe_rhs n X a b - feat_sum n X a * feat_sum n X b / of_nat n.
-  (* LLTSA: lhs = (as NPE) then rankUpdate(sum, -1/n) as well *)
+  (* LLTSA before F25lltsa: lhs = (as NPE) then rankUpdate(sum, -1/n) as well *)
   Definition lltsa_lhs_shipped (n : nat) (W : mat F) (X : mat F) : mat F :=
     fun a b => pencil_lhs n W X a b - feat_sum n X a * feat_sum n X b / of_nat n.
+  (* LLTSA at 51d934e (after F25lltsa): lhs = pencil_lhs n W' X where W' is the alignment
+     matrix PLUS the nullspace shift eps on its diagonal (tangent_weight_matrix), i.e. the
+     rows of W' sum to eps, not to 0 *)
+  Definition shift_diag (eps : F) (W : mat F) : mat F :=
+    fun r c => W r c + (if Nat.eqb r c then eps else 0).
+  Definition lltsa_lhs_f25 (n : nat) (eps : F) (W : mat F) (X : mat F) : mat F :=
+    pencil_lhs n (shift_diag eps W) X.
+  (* proposed repair F42: both sides from the centred features x_i - mean *)
+  Definition center_rows (n : nat) (X : mat F) : mat F := fun i a => X i a - mean_vec n X a.
+  Definition lltsa_lhs_f42 (n : nat) (W' : mat F) (X : mat F) : mat F :=
+    pencil_lhs n W' (center_rows n X).
+  Definition lltsa_rhs_f42 (n : nat) (X : mat F) : mat F := npe_rhs n (center_rows n X).
 
   (* ---------------------------------------------------------------- *)
   (* list-level entry points (extraction, correspondence with the C++) *)
